@@ -255,6 +255,45 @@ func VT_C03_CollectionChurnOneId() {
 	vt.Reach("done")
 }
 
+// A Delete and an Add of the same id by two writers, subscriber with backpressure that keeps receiving, subscribed
+// at any moment: no event overtakes a later commit (the REMOVE never arrives after the ADD of the re-created item).
+func VT_C03_CollectionDeleteVsAdd() {
+	c := NewCollection(WithInitialRecord("a", &T3{DefaultInt32: 1}))
+	var wg sync.WaitGroup
+	wg.Add(2)
+	go func() { defer wg.Done(); c.Delete("a") }()
+	go func() { defer wg.Done(); c.Add("a", &T3{DefaultInt32: 5}) }()
+	ctx, cancel := context.WithCancel(context.Background())
+	ch := c.Pull(ctx, WithBackpressure(true))
+	view := map[string]int32{}
+	seen := make(chan struct{})
+	go func() {
+		for e := range ch {
+			if e.Id == "z" {
+				close(seen)
+				continue
+			}
+			switch e.ChangeType {
+			case types.ChangeType_REMOVE:
+				delete(view, e.Id)
+			default:
+				view[e.Id] = e.NewValue.(*T3).DefaultInt32
+			}
+		}
+	}()
+	wg.Wait()
+	got, ok := c.Get("a")
+	c.Add("z", &T3{DefaultInt32: vtSentinel})
+	<-seen
+	v, inView := view["a"]
+	vt.Assert(inView == ok, "view-has-the-item-iff-the-store-has")
+	if ok && inView {
+		vt.Assert(v == got.(*T3).DefaultInt32, "view-has-the-stored-value")
+	}
+	cancel()
+	vt.Reach("done")
+}
+
 // A Collection subscription (no backpressure) opened exactly between the commit of an Add and the publication of its
 // event (window forced through the Collection.Update:before-publish hook), with a reader that only starts receiving
 // once the writer has stopped: the folded view equals List.
